@@ -1,7 +1,10 @@
 """C01 — native and linear indexes form a bijection on every grid."""
 from __future__ import annotations
 
+import itertools
+
 from harness.gen import datasets as G
+from harness.gen import c01_extra as X
 from harness import util
 
 ID = 'C01'
@@ -16,8 +19,14 @@ REQUIRED = [
 RULE = ('datasets of all five convention classes (UGRID with and without an edge dimension) with '
         'random shapes incl. 1xN, Nx1, non-square; per grid kind every linear index in [-3, size+3) '
         'through wind_index (explicit kind and default), every in-range native index and a margin of '
-        'out-of-range / negative / wrong-rank / wrong-kind ones through ravel_index; grid_size and '
-        'grid_kinds. The grid shapes given to the model come from the generator, not from emsarray. '
+        'out-of-range / negative / wrong-rank / wrong-kind ones (incl. in-range ones shifted by whole '
+        'multiples of the dimension) through ravel_index; grid_size and '
+        'grid_kinds. A second stream (gen/c01_extra.py) varies how the convention object is obtained '
+        '(introspection, explicit latitude= / longitude= names, an explicit topology helper), puts a second '
+        'coordinate pair of another shape into the dataset (staggered grids; the names select either pair) '
+        'and places CF 1-D axes on the globe (longitudes going exactly once round it, with the cyclic point '
+        'repeated, one cell short; latitudes pole to pole). '
+        'The grid shapes given to the model come from the generator, not from emsarray. '
         'A case is non-trivial when its grid has >= 2 cells in a non-square or 1-D shape, or is an '
         'out-of-range probe; distinct = distinct (convention, shape, kind, op, argument).')
 TRUSTED = ['numpy.ravel_multi_index / numpy.unravel_index follow C order and raise on out-of-range (modelled by Ems.ravel / Ems.unravel)']
@@ -41,6 +50,164 @@ def make_native(built: G.Built, c, kind: str, comps):
     return (k, *comps)
 
 
+def unravel(n: int, shape) -> tuple:
+    """row-major position of the n-th cell, computed here (not by numpy, not by the model)"""
+    out = []
+    for s in reversed(shape):
+        n, r = divmod(n, s)
+        out.append(r)
+    return tuple(reversed(out))
+
+
+def exercise(ctx, items: list, recipe: dict, tag: str) -> None:
+    """every C01 question about the dataset of one recipe: real calls, oracle, lines for the model"""
+    rng = ctx.rng
+    desc0 = {'recipe': recipe}
+    built = X.build(recipe)
+    conv = built.conv
+    spec = built.grids_spec()
+    ctx.count(f'{tag}conv:{conv}' + ('+edge' if 'edge' in built.grids else ''))
+    ctx.evaluated()
+    try:
+        c = X.bind(built)
+    except Exception as e:  # noqa: BLE001
+        # a supported dataset for which no convention object can be had: none of its indexes converts
+        ctx.oracle_fail('convention-construction-raises', desc0,
+                        f'constructing / binding {built.conv_class.__name__} raised {type(e).__name__}: {e}')
+        return
+    # grid kinds and sizes, against the generator's ground truth
+    impl_kinds = sorted(str(getattr(k, 'value', k)) for k in c.grid_kinds)
+    if impl_kinds != sorted(built.grids):
+        ctx.oracle_fail('grid-kinds', desc0, f'grid_kinds {impl_kinds} != {sorted(built.grids)}')
+    kind_objs = {getattr(k, 'value', k): k for k in c.grid_kinds}
+    all_kind_objs = {k.value: k for k in type(next(iter(c.grid_kinds)))}
+    for kind, (dims, shape) in built.grids.items():
+        if kind not in kind_objs:
+            continue        # (reported as `grid-kinds` above)
+        size = 1
+        for s in shape:
+            size *= s
+        try:
+            impl_size = str(int(c.grid_size[kind_objs[kind]]))
+        except Exception:
+            impl_size = 'ERR'
+        items.append((f'size {spec} {built.default_kind} {kind}', impl_size, desc0))
+        if impl_size != str(size):
+            ctx.oracle_fail('grid-size', {'recipe': recipe, 'kind': kind},
+                            f'grid_size[{kind}] = {impl_size}, the grid {dims} = {shape} has {size} locations')
+        interesting = size >= 2 and (len(shape) == 1 or shape[0] != shape[1])
+        seen_native = {}
+        for n in range(-3, size + 3):
+            for explicit in ([True, False] if kind == built.default_kind else [True]):
+                try:
+                    if explicit:
+                        got = c.wind_index(n, grid_kind=kind_objs[kind])
+                    else:
+                        got = c.wind_index(n)
+                    out = native_str(conv, got)
+                except Exception:
+                    got = None
+                    out = 'ERR'
+                line = f"wind {spec} {built.default_kind} {kind if explicit else '-'} {n}"
+                items.append((line, out, {'recipe': recipe, 'op': line}))
+                if interesting or not (0 <= n < size):
+                    ctx.nontrivial((conv, shape, kind, 'wind', n, explicit))
+                # direct oracle: range, row-major position, round trip, injectivity
+                if 0 <= n < size:
+                    if got is None:
+                        ctx.oracle_fail('wind-in-range-raises', {'recipe': recipe, 'kind': kind, 'n': n},
+                                        f'wind_index({n}) raised on a grid of size {size}')
+                    else:
+                        exp = f"{kind}:{','.join(map(str, unravel(n, shape)))}"
+                        if out != exp:
+                            ctx.oracle_fail('wind-not-row-major', {'recipe': recipe, 'kind': kind, 'n': n},
+                                            f'wind_index({n}) = {out}, row-major order over {dims} = {shape} gives {exp}')
+                        try:
+                            back = int(c.ravel_index(got))
+                        except Exception as e:
+                            back = f'ERR {e}'
+                        if back != n:
+                            ctx.oracle_fail('roundtrip-linear', {'recipe': recipe, 'kind': kind, 'n': n},
+                                            f'ravel_index(wind_index({n})) = {back}')
+                        if explicit:
+                            if out in seen_native:
+                                ctx.oracle_fail('wind-not-injective', {'recipe': recipe, 'kind': kind, 'n': n},
+                                                f'wind_index({n}) == wind_index({seen_native[out]}) == {out}')
+                            seen_native[out] = n
+                elif got is not None:
+                    ctx.oracle_fail('wind-out-of-range-accepted', {'recipe': recipe, 'kind': kind, 'n': n},
+                                    f'wind_index({n}) = {out} on a grid of size {size}')
+        # native indexes: all in range + a margin
+        ranges = [range(-2, s + 2) for s in shape]
+        probes = list(itertools.product(*ranges))
+        inr = [p for p in probes if all(0 <= v < s for v, s in zip(p, shape))]
+        if len(probes) > 400:
+            outr = [p for p in probes if not all(0 <= v < s for v, s in zip(p, shape))]
+            probes = inr + rng.sample(outr, min(len(outr), 60))
+        # an in-range index moved by whole multiples of a dimension (what a wrapped index would hit)
+        for p in (rng.sample(inr, min(len(inr), 4)) if inr else []):
+            for a, s in enumerate(shape):
+                for shift in (s, -s, 2 * s, -2 * s, 3 * s + 1):
+                    q = tuple(v + shift if b == a else v for b, v in enumerate(p))
+                    if q not in probes:
+                        probes.append(q)
+        # wrong rank
+        probes.append(tuple([0] * (len(shape) + 1)))
+        if len(shape) > 1:
+            probes.append((0,))
+        for comps in probes:
+            native = make_native(built, c, kind, comps)
+            in_range = len(comps) == len(shape) and all(0 <= v < s for v, s in zip(comps, shape))
+            try:
+                lin = int(c.ravel_index(native))
+                out = str(lin)
+            except Exception:
+                lin = None
+                out = 'ERR'
+            line = f"ravel {spec} {built.default_kind} {kind} {','.join(map(str, comps))}"
+            items.append((line, out, {'recipe': recipe, 'op': line}))
+            if interesting or not in_range:
+                ctx.nontrivial((conv, shape, kind, 'ravel', comps))
+            if in_range:
+                # row-major expectation, computed independently of the model
+                exp = 0
+                for v, s in zip(comps, shape):
+                    exp = exp * s + v
+                if lin != exp:
+                    ctx.oracle_fail('not-row-major', {'recipe': recipe, 'kind': kind, 'index': comps},
+                                    f'ravel_index({comps}) = {out}, row-major over {dims} = {shape} gives {exp}')
+                else:
+                    try:
+                        back = c.wind_index(lin, grid_kind=kind_objs[kind])
+                        back_s = native_str(conv, back)
+                    except Exception as e:
+                        back_s = f'ERR {e}'
+                    if back_s != f"{kind}:{','.join(map(str, comps))}":
+                        ctx.oracle_fail('roundtrip-native', {'recipe': recipe, 'kind': kind, 'index': comps},
+                                        f'wind_index(ravel_index({comps})) = {back_s}')
+            elif lin is not None:
+                ctx.oracle_fail('ravel-out-of-range-accepted', {'recipe': recipe, 'kind': kind, 'index': comps},
+                                f'ravel_index({comps}) = {lin} on shape {shape}')
+    # a kind the dataset does not have (UGRID without edges; a made-up kind elsewhere)
+    for kind in set(all_kind_objs) - set(built.grids):
+        native = make_native(built, c, kind, (0,) * (1 if conv == 'ugrid' else 2))
+        try:
+            out = str(int(c.ravel_index(native)))
+            ctx.oracle_fail('absent-kind-accepted', {'recipe': recipe, 'kind': kind}, f'ravel_index on absent kind {kind} = {out}')
+        except Exception:
+            out = 'ERR'
+        line = f"ravel {spec} {built.default_kind} {kind} {'0' if conv == 'ugrid' else '0,0'}"
+        items.append((line, out, {'recipe': recipe, 'op': line}))
+        try:
+            out = native_str(conv, c.wind_index(0, grid_kind=all_kind_objs[kind]))
+            ctx.oracle_fail('absent-kind-accepted', {'recipe': recipe, 'kind': kind}, f'wind_index on absent kind {kind} = {out}')
+        except Exception:
+            out = 'ERR'
+        line = f"wind {spec} {built.default_kind} {kind} 0"
+        items.append((line, out, {'recipe': recipe, 'op': line}))
+        ctx.nontrivial((conv, 'absent-kind', kind))
+
+
 def run(ctx) -> None:
     rng = ctx.rng
     n_datasets = ctx.budget(60, 300)
@@ -59,129 +226,15 @@ def run(ctx) -> None:
         recipe = G.random_recipe(rng, conv, ctx.tier, vary=True, **kw)
         # data variables in arbitrary dimension orders: the grid's shape and index order may not follow them
         recipe = G.attach_vars(rng, recipe, n_vars=2, max_extra=1)
-        built = G.build(recipe)
-        c = G.bind(built)
-        spec = built.grids_spec()
-        ctx.count(f'conv:{conv}' + ('+edge' if 'edge' in built.grids else ''))
-        desc0 = {'recipe': recipe}
-        # grid kinds and sizes, against the generator's ground truth
-        impl_kinds = sorted(getattr(k, 'value', k) for k in c.grid_kinds)
-        ctx.evaluated()
-        if impl_kinds != sorted(built.grids):
-            ctx.oracle_fail('grid-kinds', desc0, f'grid_kinds {impl_kinds} != {sorted(built.grids)}')
-        kind_objs = {getattr(k, 'value', k): k for k in c.grid_kinds}
-        all_kind_objs = {k.value: k for k in type(next(iter(c.grid_kinds)))}
-        for kind, (dims, shape) in built.grids.items():
-            size = 1
-            for s in shape:
-                size *= s
-            try:
-                impl_size = str(int(c.grid_size[kind_objs[kind]]))
-            except Exception:
-                impl_size = 'ERR'
-            items.append((f'size {spec} {built.default_kind} {kind}', impl_size, desc0))
-            interesting = size >= 2 and (len(shape) == 1 or shape[0] != shape[1])
-            seen_native = {}
-            for n in range(-3, size + 3):
-                for explicit in ([True, False] if kind == built.default_kind else [True]):
-                    try:
-                        if explicit:
-                            got = c.wind_index(n, grid_kind=kind_objs[kind])
-                        else:
-                            got = c.wind_index(n)
-                        out = native_str(built.conv, got)
-                    except Exception:
-                        got = None
-                        out = 'ERR'
-                    line = f"wind {spec} {built.default_kind} {kind if explicit else '-'} {n}"
-                    items.append((line, out, {'recipe': recipe, 'op': line}))
-                    if interesting or not (0 <= n < size):
-                        ctx.nontrivial((conv, shape, kind, 'wind', n, explicit))
-                    # direct oracle: range, round trip, injectivity
-                    if 0 <= n < size:
-                        if got is None:
-                            ctx.oracle_fail('wind-in-range-raises', {'recipe': recipe, 'kind': kind, 'n': n},
-                                            f'wind_index({n}) raised on a grid of size {size}')
-                        else:
-                            try:
-                                back = int(c.ravel_index(got))
-                            except Exception as e:
-                                back = f'ERR {e}'
-                            if back != n:
-                                ctx.oracle_fail('roundtrip-linear', {'recipe': recipe, 'kind': kind, 'n': n},
-                                                f'ravel_index(wind_index({n})) = {back}')
-                            if explicit:
-                                if out in seen_native:
-                                    ctx.oracle_fail('wind-not-injective', {'recipe': recipe, 'kind': kind, 'n': n},
-                                                    f'wind_index({n}) == wind_index({seen_native[out]}) == {out}')
-                                seen_native[out] = n
-                    elif got is not None:
-                        ctx.oracle_fail('wind-out-of-range-accepted', {'recipe': recipe, 'kind': kind, 'n': n},
-                                        f'wind_index({n}) = {out} on a grid of size {size}')
-            # native indexes: all in range + a margin
-            ranges = [range(-2, s + 2) for s in shape]
-            import itertools
-            probes = list(itertools.product(*ranges))
-            if len(probes) > 400:
-                inr = [p for p in probes if all(0 <= v < s for v, s in zip(p, shape))]
-                outr = [p for p in probes if not all(0 <= v < s for v, s in zip(p, shape))]
-                probes = inr + rng.sample(outr, min(len(outr), 60))
-            # wrong rank
-            probes.append(tuple([0] * (len(shape) + 1)))
-            if len(shape) > 1:
-                probes.append((0,))
-            expected_lin = 0
-            for comps in probes:
-                native = make_native(built, c, kind, comps)
-                in_range = len(comps) == len(shape) and all(0 <= v < s for v, s in zip(comps, shape))
-                try:
-                    lin = int(c.ravel_index(native))
-                    out = str(lin)
-                except Exception:
-                    lin = None
-                    out = 'ERR'
-                line = f"ravel {spec} {built.default_kind} {kind} {','.join(map(str, comps))}"
-                items.append((line, out, {'recipe': recipe, 'op': line}))
-                if interesting or not in_range:
-                    ctx.nontrivial((conv, shape, kind, 'ravel', comps))
-                if in_range:
-                    # row-major expectation, computed independently of the model
-                    exp = 0
-                    for v, s in zip(comps, shape):
-                        exp = exp * s + v
-                    if lin != exp:
-                        ctx.oracle_fail('not-row-major', {'recipe': recipe, 'kind': kind, 'index': comps},
-                                        f'ravel_index({comps}) = {out}, row-major gives {exp}')
-                    else:
-                        try:
-                            back = c.wind_index(lin, grid_kind=kind_objs[kind])
-                            back_s = native_str(built.conv, back)
-                        except Exception as e:
-                            back_s = f'ERR {e}'
-                        if back_s != f"{kind}:{','.join(map(str, comps))}":
-                            ctx.oracle_fail('roundtrip-native', {'recipe': recipe, 'kind': kind, 'index': comps},
-                                            f'wind_index(ravel_index({comps})) = {back_s}')
-                elif lin is not None:
-                    ctx.oracle_fail('ravel-out-of-range-accepted', {'recipe': recipe, 'kind': kind, 'index': comps},
-                                    f'ravel_index({comps}) = {lin} on shape {shape}')
-        # a kind the dataset does not have (UGRID without edges; a made-up kind elsewhere)
-        for kind in set(all_kind_objs) - set(built.grids):
-            native = make_native(built, c, kind, (0,) * (1 if built.conv == 'ugrid' else 2))
-            try:
-                out = str(int(c.ravel_index(native)))
-                ctx.oracle_fail('absent-kind-accepted', {'recipe': recipe, 'kind': kind}, f'ravel_index on absent kind {kind} = {out}')
-            except Exception:
-                out = 'ERR'
-            line = f"ravel {spec} {built.default_kind} {kind} {'0' if built.conv == 'ugrid' else '0,0'}"
-            items.append((line, out, {'recipe': recipe, 'op': line}))
-            try:
-                out = native_str(built.conv, c.wind_index(0, grid_kind=all_kind_objs[kind]))
-                ctx.oracle_fail('absent-kind-accepted', {'recipe': recipe, 'kind': kind}, f'wind_index on absent kind {kind} = {out}')
-            except Exception:
-                out = 'ERR'
-            line = f"wind {spec} {built.default_kind} {kind} 0"
-            items.append((line, out, {'recipe': recipe, 'op': line}))
-            ctx.nontrivial((conv, 'absent-kind', kind))
+        ctx.guarded(lambda: exercise(ctx, items, recipe, ''), {'recipe': recipe})
+    # second stream: how the convention object is obtained, a second coordinate pair, axes placed on the globe
+    for k in range(ctx.budget(40, 160)):
+        recipe = X.random_extra(rng, k, ctx.tier)
+        recipe = G.attach_vars(rng, recipe, n_vars=2, max_extra=1)
+        info = recipe['c01']
+        ctx.count(f"bind:{info['bind']}/{info['pair']}" + ('+2nd-pair' if info['extra'] else ''))
+        ctx.count(f"lon:{info['lon_class']}")
+        ctx.guarded(lambda: exercise(ctx, items, recipe, 'x-'), {'recipe': recipe})
     if ctx.searching and ctx.driver is None:
         ctx.evaluated(len(items))
         return
@@ -194,9 +247,17 @@ def replay(ctx, data) -> int:
 
 def run_one(ctx, inp: dict) -> dict:
     """Re-execute one recorded input on the real code and on the model."""
-    built = G.build(inp['recipe'])
-    c = G.bind(built)
+    built = X.build(inp['recipe'])
     out = {}
+    info = inp['recipe'].get('c01')
+    if info:
+        out['convention'] = (f"{built.conv_class.__name__} obtained by {info['bind']!r}, coordinates "
+                             f"{built.extra['c01_names']}, grid {built.grids_spec()}")
+    try:
+        c = X.bind(built)
+    except Exception as e:  # noqa: BLE001
+        out['impl'] = f'ERR constructing the convention ({type(e).__name__}: {e})'
+        return out
     op = inp.get('op')
     kind_objs = {getattr(k, 'value', k): k for k in c.grid_kinds}
     if op:
@@ -208,6 +269,8 @@ def run_one(ctx, inp: dict) -> dict:
             elif w[0] == 'ravel':
                 comps = [int(v) for v in w[4].split(',')]
                 out['impl'] = str(int(c.ravel_index(make_native(built, c, w[3], comps))))
+            elif w[0] == 'size':
+                out['impl'] = str(int(c.grid_size[kind_objs[w[3]]]))
         except Exception as e:
             out['impl'] = f'ERR ({type(e).__name__}: {e})'
         if ctx.driver:
@@ -221,6 +284,11 @@ def run_one(ctx, inp: dict) -> dict:
     elif 'index' in inp:
         try:
             out['impl'] = f"ravel_index({inp['index']}) = {c.ravel_index(make_native(built, c, inp['kind'], inp['index']))}"
+        except Exception as e:
+            out['impl'] = f'ERR ({type(e).__name__}: {e})'
+    elif 'kind' in inp:
+        try:
+            out['impl'] = f"grid_size[{inp['kind']}] = {c.grid_size[kind_objs[inp['kind']]]}"
         except Exception as e:
             out['impl'] = f'ERR ({type(e).__name__}: {e})'
     return out
